@@ -742,6 +742,22 @@ func (t *ftr) stmt(s ast.Stmt) string {
 		if _, ok := s.(*ast.EmptyStmt); ok {
 			return "Go.skip"
 		}
+		// binary.LittleEndian.PutUint32(b, v) / PutUint64(b, v) (encoding/binary: `_ = b[3]` resp. `_ = b[7]`, then one
+		// store per byte, least significant first) — a TRUSTED rendering of the standard library
+		if es, ok := s.(*ast.ExprStmt); ok {
+			if ce, ok := es.X.(*ast.CallExpr); ok && len(ce.Args) == 2 {
+				if sel, ok := ce.Fun.(*ast.SelectorExpr); ok && (sel.Sel.Name == "PutUint32" || sel.Sel.Name == "PutUint64") && exprString(sel.X) == "binary.LittleEndian" {
+					k := 4
+					if sel.Sel.Name == "PutUint64" {
+						k = 8
+					}
+					if dst := t.x.stateName(ce.Args[0]); dst != "" && t.byName[dst].kind == "bytes" {
+						v := t.x.exprAs(ce.Args[1], ityp{k * 8, false})
+						return fmt.Sprintf("(fun s => if %d ≤ s.%s.length then .next { s with %s := Go.putLE s.%s %d (%s).toNat } else .panic)", k, dst, dst, dst, k, v)
+					}
+				}
+			}
+		}
 		// copy(dst[lo:], src): as many bytes as fit are copied (silently truncated), dst keeps its length
 		if es, ok := s.(*ast.ExprStmt); ok {
 			if ce, ok := es.X.(*ast.CallExpr); ok && len(ce.Args) == 2 {
@@ -915,6 +931,11 @@ func translateFunc(p *pkgInfo, name string, b *strings.Builder) []string {
 				}
 			}
 		case *ast.CallExpr: // a callee that stores into a slice we pass on
+			if sel, ok := n.Fun.(*ast.SelectorExpr); ok && (sel.Sel.Name == "PutUint32" || sel.Sel.Name == "PutUint64") && len(n.Args) == 2 {
+				if aid, ok := n.Args[0].(*ast.Ident); ok {
+					sig.writes[aid.Name] = true
+				}
+			}
 			if id, ok := n.Fun.(*ast.Ident); ok {
 				if cs := translated[id.Name]; cs != nil {
 					for i, a := range n.Args {
@@ -963,10 +984,10 @@ func writeWireFuncs(p *pkgInfo, outPath string) {
 	b.WriteString("/- REGENERATED on every run by harness/cmd/extract (wirefuncs.go): the bodies of the wire primitives of\n   /repo's encoder.go / decoder.go, translated statement by statement. Do not edit. -/\n")
 	b.WriteString("import Csproto.Model.GoSem\nimport Csproto.Generated.Facts\nset_option linter.unusedVariables false\nnamespace Csproto.Generated.WireFuncs\nopen Csproto\n\n")
 	for _, fn := range []string{"EncodeVarint", "DecodeVarint", "DecodeFixed32", "DecodeFixed64",
-		"EncodeTag", "EncodeZigZag32", "EncodeZigZag64", "DecodeZigZag32", "DecodeZigZag64",
+		"EncodeFixed32", "EncodeFixed64", "EncodeTag", "EncodeZigZag32", "EncodeZigZag64", "DecodeZigZag32", "DecodeZigZag64",
 		"Decoder.Offset", "Decoder.Reset", "Decoder.DecodeTag", "Decoder.DecodeUInt64", "Decoder.DecodeInt64", "Decoder.DecodeUInt32",
 		"Decoder.DecodeInt32", "Decoder.DecodeSInt32", "Decoder.DecodeSInt64", "Decoder.DecodeFixed32", "Decoder.DecodeFixed64",
-		"Decoder.DecodeBytes", "Decoder.Skip", "Decoder.DecodeBool", "Decoder.More", "Decoder.Seek", "Decoder.DecodePackedUint64", "Decoder.DecodePackedInt64", "Decoder.DecodePackedSint64", "Decoder.DecodePackedSint32", "Decoder.DecodePackedUint32", "Decoder.DecodePackedInt32", "Decoder.DecodePackedFixed64", "Decoder.DecodePackedFixed32", "Decoder.DecodePackedBool", "Encoder.EncodeBytes", "Encoder.EncodeMapEntryHeader", "Encoder.EncodeRaw", "Encoder.EncodePackedBool", "Encoder.EncodePackedUInt64", "Encoder.EncodePackedInt32", "Encoder.EncodePackedInt64", "Encoder.EncodePackedUInt32", "Encoder.EncodePackedSInt64", "Encoder.EncodePackedSInt32", "Encoder.EncodeBool",
+		"Decoder.DecodeBytes", "Decoder.Skip", "Decoder.DecodeBool", "Decoder.More", "Decoder.Seek", "Decoder.DecodePackedUint64", "Decoder.DecodePackedInt64", "Decoder.DecodePackedSint64", "Decoder.DecodePackedSint32", "Decoder.DecodePackedUint32", "Decoder.DecodePackedInt32", "Decoder.DecodePackedFixed64", "Decoder.DecodePackedFixed32", "Decoder.DecodePackedBool", "Encoder.EncodeBytes", "Encoder.EncodeMapEntryHeader", "Encoder.EncodeRaw", "Encoder.EncodeFixed32", "Encoder.EncodeFixed64", "Encoder.EncodePackedBool", "Encoder.EncodePackedUInt64", "Encoder.EncodePackedInt32", "Encoder.EncodePackedInt64", "Encoder.EncodePackedUInt32", "Encoder.EncodePackedSInt64", "Encoder.EncodePackedSInt32", "Encoder.EncodeBool",
 		"Encoder.EncodeUInt64", "Encoder.EncodeUInt32", "Encoder.EncodeInt64", "Encoder.EncodeInt32", "Encoder.EncodeSInt32", "Encoder.EncodeSInt64"} {
 		if errs := translateFunc(p, fn, &b); len(errs) > 0 {
 			fmt.Println("wire primitive", fn, "is outside the translatable fragment (Bridge/WireFuncs.lean no longer applies):")
